@@ -291,7 +291,7 @@ func driveBranches(tr *kit.Tree, w kit.Actor, prefix []types.Block, first, secon
 		if node.CM.Tip() != second[len(second)-1].Index() {
 			return fmt.Errorf("INFRA: second branch did not become the best chain")
 		}
-		cs.Class("payout-moves-between-lists-in-a-reorg")
+		cs.Class("second-branch-reorgs-the-first")
 		if err := syncAll("after the reorg to the second branch", chunk2); err != nil {
 			return err
 		}
@@ -476,3 +476,140 @@ var c06V2PayoutsProp = kit.Prop[V2PayoutCase]{
 }
 
 func TestC06V2Payouts(t *testing.T) { c06V2PayoutsProp.Main(t) }
+
+// MinerBlock is one hand-built block of a MinerPayoutCase.
+type MinerBlock struct {
+	Payouts []int `json:"payouts"`         // address selectors of the miner payouts (1..4, duplicates allowed)
+	Spend   bool  `json:"spend,omitempty"` // the wallet spends one of its outputs in the block (with a fee)
+}
+
+// MinerPayoutCase: v1-format blocks (below the v2 allow height) whose reward +
+// fees is split into several miner payouts, any number of them to the wallet's
+// address; a main branch and a heavier fork.
+type MinerPayoutCase struct {
+	Maturity int          `json:"maturity"`
+	Overlap  bool         `json:"overlap"` // v2 is allowed from height 6 (blocks from there carry exactly one payout)
+	Main     []MinerBlock `json:"main"`
+	ForkAt   int          `json:"fork_at"`
+	Fork     []MinerBlock `json:"fork"`
+	Chunk1   int          `json:"chunk1"`
+	Chunk2   int          `json:"chunk2"`
+	MidSync  bool         `json:"mid_sync"`
+}
+
+func genMinerPayouts(t *rapid.T) MinerPayoutCase {
+	blk := rapid.Custom(func(t *rapid.T) MinerBlock {
+		// selector 0 is the wallet; make it frequent so that two or more payouts of
+		// one block go to the wallet often
+		return MinerBlock{Payouts: rapid.SliceOfN(rapid.SampledFrom([]int{0, 0, 0, 1, 2}), 1, 4).Draw(t, "payouts"), Spend: kit.Chance(t, 25, "spend")}
+	})
+	return MinerPayoutCase{
+		Maturity: rapid.IntRange(1, 3).Draw(t, "maturity"),
+		Overlap:  kit.Chance(t, 40, "overlap"),
+		Main:     rapid.SliceOfN(blk, 2, 8).Draw(t, "main"),
+		ForkAt:   rapid.IntRange(0, 6).Draw(t, "fork-at"),
+		Fork:     rapid.SliceOfN(blk, 0, 6).Draw(t, "fork"),
+		Chunk1:   c06Chunks[kit.Uniform(t, len(c06Chunks), "chunk1")],
+		Chunk2:   c06Chunks[kit.Uniform(t, len(c06Chunks), "chunk2")],
+		MidSync:  kit.Chance(t, 70, "midsync"),
+	}
+}
+
+func runMinerPayouts(c MinerPayoutCase, cs *kit.CaseStats) error {
+	ns := kit.NetSpec{Maturity: clampInt(c.Maturity, 1, 3), Allow: 500, ReqOff: 10, CutOff: 10}
+	if c.Overlap {
+		ns.Allow, ns.ReqOff = 6, 500
+	}
+	tr := kit.BuildTree(kit.TreeCase{Net: ns})
+	w := kit.Actors[payoutWallet]
+	ts := tr.Genesis.Timestamp
+	build := func(parent *kit.TNode, mb MinerBlock, salt int) (*kit.TNode, error) {
+		var txns []types.Transaction
+		var v2txns []types.V2Transaction
+		if mb.Spend {
+			bb := kit.NewBlockBuilder(parent.Ledger)
+			if bb.Add(kit.Intent{Kind: "pay", Who: payoutWallet, To: 2, Pick: salt, Amt: 3, Fee: true}) {
+				txns, v2txns = bb.Txns, bb.V2Txns
+				cs.Class("block-with-wallet-spend")
+			}
+		}
+		pay := mb.Payouts
+		if len(pay) == 0 {
+			pay = []int{1}
+		}
+		b := kit.AssembleBlock(parent.Ledger.State, ts.Add(time.Duration(int(parent.Height)+1+salt)*time.Second), payoutAddr(pay[0]), txns, v2txns, 0)
+		if b.V2 == nil && len(pay) > 1 {
+			// a v1-format block may split reward + fees over any number of payouts
+			total := b.MinerPayouts[0].Value
+			b.MinerPayouts = nil
+			n := clampInt(len(pay), 1, 4)
+			toWallet := 0
+			for i, v := range splitValues(total, n) {
+				b.MinerPayouts = append(b.MinerPayouts, types.SiacoinOutput{Address: payoutAddr(pay[i]), Value: v})
+				if payoutAddr(pay[i]) == w.Addr {
+					toWallet++
+				}
+			}
+			kit.Grind(parent.Ledger.State, &b, true)
+			cs.Class("block-with-split-miner-payout")
+			if toWallet >= 2 {
+				cs.Class("two-or-more-miner-payouts-of-one-block-to-the-wallet")
+				cs.NonTrivial()
+			}
+		} else if b.V2 != nil {
+			cs.Class("v2-format-block (single payout)")
+		}
+		nb, ok := kit.Normalize(b)
+		if !ok {
+			return nil, fmt.Errorf("INFRA: block has no stable encoding")
+		}
+		n := tr.AddDynamic(nb)
+		if n.Ledger == nil {
+			return nil, fmt.Errorf("INFRA: hand-built block at height %d is invalid: %v", parent.Height+1, n.Err)
+		}
+		return n, nil
+	}
+	var main []*kit.TNode
+	cur := tr.Root
+	for _, mb := range c.Main {
+		n, err := build(cur, mb, 0)
+		if err != nil {
+			return err
+		}
+		main = append(main, n)
+		cur = n
+	}
+	forkAt := clampInt(c.ForkAt, 0, len(main)-1)
+	var second []*kit.TNode
+	if len(c.Fork) > 0 {
+		cur = tr.Root
+		if forkAt > 0 {
+			cur = main[forkAt-1]
+		}
+		// the fork has to be heavier: at least two blocks longer than what it replaces
+		need := len(main) - forkAt + 2
+		for i := 0; i < need; i++ {
+			n, err := build(cur, c.Fork[i%len(c.Fork)], 9)
+			if err != nil {
+				return err
+			}
+			second = append(second, n)
+			cur = n
+		}
+		cs.Classf("reorg-depth=%d", min(len(main)-forkAt, 6))
+	}
+	var prefix []types.Block
+	for _, n := range main[:forkAt] {
+		prefix = append(prefix, n.Block)
+	}
+	return driveBranches(tr, w, prefix, main[forkAt:], second, c.MidSync, c.Chunk1, c.Chunk2, cs)
+}
+
+var c06MinerPayoutsProp = kit.Prop[MinerPayoutCase]{
+	ID:   "C06",
+	Rule: "hand-built v1-format blocks (v1-only network, or below the allow height 6 of an overlap network) whose reward + fees is split into 1..4 miner payouts with addresses drawn from {wallet ×3, two other actors} (duplicates allowed, distinct values), a quarter of the blocks also carrying a fee-paying spend of the wallet; a main branch of 2..8 blocks and a heavier fork from a drawn height; full C06 oracle after each sync. Non-trivial = some block pays two or more of its miner payouts to the wallet.",
+	Gen:  genMinerPayouts,
+	Run:  runMinerPayouts,
+}
+
+func TestC06MinerPayouts(t *testing.T) { c06MinerPayoutsProp.Main(t) }
